@@ -206,6 +206,149 @@ def judge_greedy(spec, ids, ph, A, L, info, r_out, rec, labels, now=0):
     return binding_not_last
 
 
+def make_adapter(sim, strip):
+    import numpy as np
+
+    from acnportal.acnsim.interface import Interface
+
+    class Adapter(Interface):
+        def infrastructure_info(self):
+            info = super().infrastructure_info()
+            for k, sid in enumerate(info.station_ids):
+                if sid in strip and not info.is_continuous[k]:
+                    info.allowable_pilots[k] = np.array([a for a in info.allowable_pilots[k] if a != 0], dtype=float)
+            return info
+
+    return Adapter(sim)
+
+
+def prop_greedy_bounds(spec, rec):
+    """Greedy allocation when the caller narrows sessions with its own min_rates / max_rates (the
+    documented SessionInfo fields) and the infrastructure description lists finite levels without
+    the implied 0 A: every session still gets the largest allowable pilot within its bounds that is
+    feasible next to the higher-priority grants (later sessions waiting at their lower bound), and
+    0 A when no listed level fits."""
+    import numpy as np
+
+    algo = SortedSchedulingAlgo(sc.SORTS[spec["sort"]])
+    net, sim, evs = setup(spec, algo)
+    algo.register_interface(make_adapter(sim, set(spec["strip_zero"])))
+    sessions = algo.interface.active_sessions()
+    bounds = {b["id"]: b for b in spec["bounds"]}
+    for ses in sessions:
+        b = bounds[ses.session_id]
+        n = len(ses.min_rates)
+        ses.min_rates = np.full(n, float(b["lb"]))
+        ses.max_rates = np.full(n, float("inf") if b["ub"] is None else float(b["ub"]))
+    ids, ph, A, L, info = oracle_inputs(spec, evs)
+    labels = {"sort_" + spec["sort"], "greedy_bounds"}
+    raised = None
+    try:
+        out = algo.schedule(sessions)
+    except ValueError as e:
+        raised = e
+    try:
+        order = priority(info, spec["sort"], rec, 0)
+    except Skip:
+        hypothesis.assume(False)
+    live = []
+    for e in order:
+        thr = e["mn"] * e["V"] / (60.0 / spec["period"]) / 1000.0
+        if abs(e["rem"] - thr) < 1e-9:
+            hypothesis.assume(False)
+        if e["rem"] > thr:
+            b = bounds[e["sid"]]
+            e = dict(e, lb=max(0.0, float(b["lb"])), ub=min(e["mx"], e["amp"], float("inf") if b["ub"] is None else float(b["ub"])))
+            live.append(e)
+    r = [0.0] * len(ids)
+    for e in live:
+        r[e["i"]] = e["lb"]
+    m0 = margin(A, L, ph, r)
+    if abs(m0) < 1e-9:
+        rec.case(spec, labels | {"ambiguous"}, False)
+        return
+    if m0 < 0:
+        require(raised is not None, "infeasible_lower_bounds_accepted", lambda: "charging every session at its lower bound %r violates a constraint by %r, yet a schedule was returned" % (r, -m0))
+        rec.case(spec, labels | {"lower_bounds_infeasible"}, False)
+        return
+    require(raised is None, "feasible_lower_bounds_refused", lambda: "lower bounds %r are feasible (margin %r) but schedule() raised %r" % (r, m0, raised))
+    r_out = [float(out[sid][0]) for sid in ids]
+    nt = False
+    for pos, e in enumerate(live):
+        i = e["i"]
+        stn = spec["stations"][i]
+        if stn["kind"] == "finite":
+            listed = sorted({float(x) for x in stn["rates"]} | (set() if stn["id"] in spec["strip_zero"] else {0.0}))
+            if stn["id"] in spec["strip_zero"]:
+                listed = [a for a in listed if a != 0]
+            allow = [a for a in listed if e["lb"] <= a <= e["ub"]]
+            if any(abs(a - e["ub"]) < 1e-9 or abs(a - e["lb"]) < 1e-9 for a in listed if a not in allow) or (e["ub"] != e["mx"] and any(abs(a - e["ub"]) < 1e-9 for a in listed)):
+                rec.case(spec, labels | {"ambiguous"}, False)
+                return
+            best, amb = 0.0, False
+            for a in allow:
+                r2 = list(r)
+                r2[i] = a
+                m = margin(A, L, ph, r2)
+                if abs(m) < 1e-9:
+                    amb = True
+                if m >= 0:
+                    best = max(best, a)
+            if amb:
+                rec.case(spec, labels | {"ambiguous"}, False)
+                return
+            require(abs(r_out[i] - best) < 1e-9, "greedy_finite_not_largest_feasible_level", lambda: "priority %d session %s (station %s, listed levels %r, session bounds [%r, %r]): granted %r, the largest listed level that is feasible next to %r is %r (0 A when none fits)" % (pos, e["sid"], ids[i], listed, e["lb"], e["ub"], r_out[i], r, best))
+            if allow and best < max(allow):
+                labels.add("constraint_binds")
+                nt = nt or pos < len(live) - 1
+            if allow and best == 0.0 and 0.0 not in allow:
+                labels.add("no_listed_level_fits")
+            if not allow:
+                labels.add("no_level_within_session_bounds")
+        else:
+            if e["ub"] < e["lb"] - 1e-12:
+                rec.case(spec, labels | {"ambiguous"}, False)
+                return
+            star = min(e["ub"], rmax_cont(A, L, ph, r, i, e["ub"]))
+            require(star - 0.01 - 1e-6 <= r_out[i] <= star + 1e-6 and r_out[i] >= e["lb"] - 1e-9, "greedy_continuous_not_max_feasible", lambda: "priority %d session %s (station %s, session bounds [%r, %r]): granted %r, maximum feasible %r next to %r" % (pos, e["sid"], ids[i], e["lb"], e["ub"], r_out[i], star, r))
+            if star < e["ub"] - 1e-9:
+                labels.add("constraint_binds")
+                nt = nt or pos < len(live) - 1
+        r[i] = r_out[i]
+    served = {e["i"] for e in live}
+    for i, sid in enumerate(ids):
+        if i not in served:
+            require(r_out[i] == 0, "station_without_active_session_gets_zero", lambda: "station %s got %r" % (sid, r_out[i]))
+    if spec["strip_zero"]:
+        labels.add("level_list_without_zero")
+    if any(b["lb"] > 0 for b in spec["bounds"]):
+        labels.add("session_lower_bound")
+    if any(b["ub"] is not None for b in spec["bounds"]):
+        labels.add("session_upper_bound")
+    rec.case(spec, labels, nt)
+
+
+@st.composite
+def bounds_cases(draw):
+    spec = draw(cases())
+    fin = [x["id"] for x in spec["stations"] if x["kind"] == "finite"]
+    spec["strip_zero"] = sorted(draw(st.sets(st.sampled_from(fin), max_size=len(fin)))) if fin else []
+    bounds = []
+    for ses in spec["sessions"]:
+        stn = [x for x in spec["stations"] if x["id"] == ses["station"]][0]
+        top = sc.top_level(stn)
+        # session lower bounds stay 0: with a positive lower bound the algorithm's fall-back to
+        # 0 A (below that bound) can itself break feasibility when phases cancel, and the property
+        # says nothing about that case (DESIGN.md section 8.5c)
+        lb = 0.0
+        ub = draw(st.sampled_from([None, None, top, round(top * 0.6, 2), 9.0, 17.5]))
+        if ub is not None and ub < lb:
+            ub = None
+        bounds.append({"id": ses["id"], "lb": lb, "ub": ub})
+    spec["bounds"] = bounds
+    return spec
+
+
 def rr_levels(s, ub, inc):
     if s["kind"] == "finite":
         lv = sorted({0.0} | {float(x) for x in s["rates"]})
@@ -455,6 +598,7 @@ def cases(draw, finite_max=True):
 def subchecks(tier):
     return [
         Given("greedy", cases(), prop_greedy, quick=1200, thorough=150000, floors={"constraint_binds": 0.2}, min_nontrivial=100),
+        Given("greedy_session_bounds", bounds_cases(), prop_greedy_bounds, quick=800, thorough=80000, floors={"level_list_without_zero": 0.15, "session_upper_bound": 0.2, "constraint_binds": 0.1, "no_listed_level_fits": 0.01}),
         Given("round_robin", cases(), prop_rr, quick=800, thorough=100000, floors={"stopped_by_infeasibility": 0.15}),
         Given("sorted_sim", sim_cases(), prop_sorted_sim, quick=250, thorough=20000, floors={"estimated_departure_already_past": 0.1}),
         Given("uncontrolled", cases(), prop_uncontrolled, quick=300, thorough=20000),
@@ -463,4 +607,4 @@ def subchecks(tier):
 
 
 def replay(subcheck, spec, rec):
-    return {"greedy": prop_greedy, "round_robin": prop_rr, "uncontrolled": prop_uncontrolled, "uncontrolled_sim": prop_uncontrolled_sim, "sorted_sim": prop_sorted_sim}[subcheck](spec, rec)
+    return {"greedy": prop_greedy, "greedy_session_bounds": prop_greedy_bounds, "round_robin": prop_rr, "uncontrolled": prop_uncontrolled, "uncontrolled_sim": prop_uncontrolled_sim, "sorted_sim": prop_sorted_sim}[subcheck](spec, rec)
